@@ -212,6 +212,10 @@ def cases(tier):
             RoundTrip('Reciprocal', dict(mininu=0.5)), RoundTrip('BoxCox2', via_get=True), RoundTrip('Log', dict(base=2.0), via_get=True),
             # a = b = 1 exactly: the domain guard of LogSinh is then decided in linear arithmetic (no EXP abstraction in the way)
             RoundTrip('LogSinh', pin=dict(loga=0.0, logb=0.0))]
+    # exponents pinned to the branch values and to values whose reciprocal is exact in binary (no EXP-abstraction slack, every label is decided)
+    out += [RoundTrip('YeoJohnson', pin=dict(lam=l)) for l in (0.0, 1.0, 2.0)]
+    out += [RoundTrip('BoxCox2', pin=dict(lam=l)) for l in (-1.0, 0.0, 0.5, 1.0, 2.0)]
+    out += [RoundTrip('BoxCox2sym', pin=dict(lam=l)) for l in (0.0, 0.5)] + [RoundTrip('Manly', pin=dict(lam=l)) for l in (0.0, 1.0, -2.0)]
     if tier == 'thorough':
         out += [RoundTrip(n, n=2) for n in names if n != 'Softmax']
         out += [RoundTrip('BoxCox1lam', dict(minilam=-1.0)), RoundTrip('YeoJohnson', via_get=True), RoundTrip('Log', dict(base=0.5))]
